@@ -1,0 +1,122 @@
+//go:build verif
+// +build verif
+
+// Verification accessors (build tag verif only, add-only, no behaviour):
+// canonical textual dumps of the in-memory representation of a Trie and of the
+// NodeDatabase write-back cache, used as explicit-state search keys.
+
+package trie
+
+import (
+	"encoding/hex"
+	"sort"
+	"strconv"
+	"strings"
+)
+
+// VerifDump renders the node graph hanging off t.root exactly as it is held in
+// memory (nothing is resolved, hashed or otherwise touched):
+//
+//	-                                   nil
+//	V:<hex>                             valueNode
+//	H:<hex>                             hashNode (unresolved reference)
+//	S{<nibbles>|<flags>|<child>}        shortNode
+//	F{<flags>|<c0>,<c1>,...,<c16>}      fullNode
+//
+// <flags> = 'd' or 'c' (dirty / clean), then 'h'+first 4 bytes of the cached hash
+// or 'n' when no hash is cached, then 'g'+min(cachegen-gen, ageCap).
+// The header carries the cache limit. Nibbles are printed one hex digit each,
+// the terminator as 't'.
+func (t *Trie) VerifDump(ageCap uint16) string {
+	var b strings.Builder
+	b.WriteString("limit=")
+	b.WriteString(strconv.Itoa(int(t.cachelimit)))
+	b.WriteByte(' ')
+	verifDumpNode(&b, t.root, t.cachegen, ageCap)
+	return b.String()
+}
+
+func verifFlags(b *strings.Builder, f nodeFlag, cachegen, ageCap uint16) {
+	if f.dirty {
+		b.WriteByte('d')
+	} else {
+		b.WriteByte('c')
+	}
+	if f.hash == nil {
+		b.WriteByte('n')
+	} else {
+		b.WriteByte('h')
+		h := []byte(f.hash)
+		if len(h) > 4 {
+			h = h[:4]
+		}
+		b.WriteString(hex.EncodeToString(h))
+	}
+	age := cachegen - f.gen
+	if age > ageCap {
+		age = ageCap
+	}
+	b.WriteByte('g')
+	b.WriteString(strconv.Itoa(int(age)))
+}
+
+func verifDumpNode(b *strings.Builder, n node, cachegen, ageCap uint16) {
+	switch n := n.(type) {
+	case nil:
+		b.WriteByte('-')
+	case valueNode:
+		b.WriteString("V:")
+		b.WriteString(hex.EncodeToString(n))
+	case hashNode:
+		b.WriteString("H:")
+		b.WriteString(hex.EncodeToString(n))
+	case *shortNode:
+		b.WriteString("S{")
+		for _, x := range n.Key {
+			if x == 16 {
+				b.WriteByte('t')
+			} else if x < 16 {
+				b.WriteByte("0123456789abcdef"[x])
+			} else {
+				b.WriteByte('?')
+			}
+		}
+		b.WriteByte('|')
+		verifFlags(b, n.flags, cachegen, ageCap)
+		b.WriteByte('|')
+		verifDumpNode(b, n.Val, cachegen, ageCap)
+		b.WriteByte('}')
+	case *fullNode:
+		b.WriteString("F{")
+		verifFlags(b, n.flags, cachegen, ageCap)
+		b.WriteByte('|')
+		for i, c := range n.Children {
+			if i > 0 {
+				b.WriteByte(',')
+			}
+			verifDumpNode(b, c, cachegen, ageCap)
+		}
+		b.WriteByte('}')
+	default:
+		b.WriteString("?")
+	}
+}
+
+// VerifCacheGen returns the commit generation counter and the cache limit.
+func (t *Trie) VerifCacheGen() (cachegen, cachelimit uint16) { return t.cachegen, t.cachelimit }
+
+// VerifNodeHashes returns the sorted hex hashes of all nodes currently held in
+// the write-back cache (the zero-hash meta root excluded).
+func (db *NodeDatabase) VerifNodeHashes() []string {
+	db.lock.RLock()
+	defer db.lock.RUnlock()
+	out := make([]string, 0, len(db.nodes))
+	for h := range db.nodes {
+		if h == ([32]byte{}) {
+			continue
+		}
+		out = append(out, hex.EncodeToString(h[:]))
+	}
+	sort.Strings(out)
+	return out
+}
